@@ -30,6 +30,35 @@ LEVEL_TEXT = {
     "C16": ("exploration", "4/C16", "Every history is executed in multiprocessing mode and, on any disagreement, re-executed "
             "in threading mode; the C07/C12 scenarios run through the multiprocessing code paths with tasks standing for "
             "forked processes (fork-view of the store, manager-list operations as yield points)."),
+    "C07": ("exploration", "4/C07", "2-4 tasks x 1-2 object calls from several start states under the seeded baton-passing "
+            "scheduler (uniform random, PCT, bounded pre-emption, probe-biased; yield points = every file-system call, "
+            "lock/condition operation and flock); the recorded invoke/return history and the final alpha(directory) must be "
+            "explained by a sequential order of the reference model. Search, not enumeration: evidence over ~10^4 (quick) "
+            "to ~10^5-10^6 (thorough) schedules."),
+    "C08": ("exploration", "4/C08", "Every CONC run must end with all tasks finished (the scheduler owns every blocking "
+            "primitive, so 'nobody runnable' is a detected deadlock), empty locked-identifier lists, free locks, and "
+            "completing follow-up calls on every identifier involved; the FAULT runs of C13 apply the same oracles after "
+            "an injected I/O error at every fault site."),
+    "C09": ("fault_enumeration", "4/C09", "Invariant monitor at every seam event of every (start state, call, knob set) of a "
+            "fixed menu (complete for that menu), of random single calls, and of the multi-task runs: object files hash "
+            "to their name, metadata documents and pid references are complete supplied values, at every instant."),
+    "C10": ("fault_enumeration", "4/C10", "Process death before every mutating seam event of every (start state, call) of a "
+            "fixed menu (complete for that menu) plus random states/calls/second crashes; recovery oracle on a new instance "
+            "opened on the directory as it was at that instant. Crash stub cross-checked against real fork + os._exit."),
+    "C12": ("exploration", "4/C12", "As C07 for store/retrieve/delete_metadata and delete_object on one pid and 1-2 formats, "
+            "with reader tasks; one genuine defect (delete-all is not atomic across documents) is listed as a known finding "
+            "and identified by a relaxed linearization, every other non-linearizable history is reported."),
+    "C13": ("fault_enumeration", "4/C13", "One injected OSError per run at every fault site of every (start state, call) of a "
+            "fixed menu x {one-off, persistent} (complete for that menu; EIO in quick, EIO/ENOSPC/EACCES in thorough) plus "
+            "random states/calls/errnos."),
+    "C14": ("exploration", "4/C14", "Histories with reopen(cfg') operations over the configuration space, refused opens "
+            "between two full directory snapshots with a seam mutation trace, accepted opens continue model conformance."),
+    "C17": ("exploration", "4/C17", "Invalid-argument grammar for every parameter of every public method inserted into "
+            "histories; each rejected / read-only call runs between two full directory snapshots."),
+    "C18": ("exploration", "4/C18", "Adversarial identifier alphabets inside histories with two seam monitors that only a "
+            "simulator-owned file system provides: containment and per-identifier access isolation."),
+    "C19": ("exploration", "4/C19", "Two-world rule inside histories: the one-call and the step-wise store procedure run on "
+            "two copies of the current store directory; reports and abstract states compared."),
 }
 
 TRUST = ("Trusted: CPython, the kernel file system on tmpfs, the ~250-line reference model and the abstraction function; "
@@ -123,6 +152,16 @@ TECHNIQUE = {
     "C06": "deterministic simulation: seeded validation histories vs hashlib verdict model",
     "C11": "deterministic simulation: seeded metadata histories vs reference model",
     "C16": "deterministic simulation: differential threading/multiprocessing histories + simulated forked processes",
+    "C07": "deterministic simulation: seeded thread schedules (random/PCT/bounded) + linearizability check against a reference model",
+    "C08": "deterministic simulation: scheduler-owned blocking primitives (deadlock = no runnable task) + fault injection",
+    "C09": "deterministic simulation: invariant monitor at every intercepted file-system step (crash/reader view)",
+    "C10": "deterministic simulation: crash injection at every mutating file-system step + recovery oracle",
+    "C12": "deterministic simulation: seeded thread schedules + linearizability check of metadata histories",
+    "C13": "deterministic simulation: single-fault injection (errno x site x persistence) sweep + seeded random",
+    "C14": "deterministic simulation: seeded (create, history, reopen) configurations with snapshot + seam mutation trace",
+    "C17": "deterministic simulation: invalid-argument grammar inside seeded histories, directory snapshots + seam trace",
+    "C18": "deterministic simulation: adversarial identifiers with seam containment / access-isolation monitors",
+    "C19": "deterministic simulation: two-world differential execution inside seeded histories",
 }
 
 if __name__ == "__main__":
